@@ -89,6 +89,44 @@ Theorem C20_disciplined_traces_grow :
 Proof. exact ok_solo_trace_grows. Qed.
 Print Assumptions C20_disciplined_traces_grow.
 
+(* the memoising operations of api.py (filter_out_stats' converted_min/max, statistics, key_value_metadata,
+   pandas_metadata, categories: look up, compute from immutable data when absent, store, read back) obey
+   the discipline, for ANY number of memoised values consulted, with early exit *)
+Theorem C20_memo_ops_disciplined :
+  forall (V R : Type) (memo : N -> option V) (base : store V)
+         (f : N -> list (option V) -> V) (stop : list V -> option R) (fin : list V -> R) (err : R)
+         (l : list (N * list N)),
+    table_ok V memo base f l ->
+    forall acc kn, ok memo base kn (memo_seq f stop fin err l acc) (pure_seq f stop fin base l acc).
+Proof. exact ok_memo_seq. Qed.
+Print Assumptions C20_memo_ops_disciplined.
+
+(* ... hence any number of threads, each filtering on its own columns / row groups of the shared handle,
+   obtain under EVERY schedule the pure function of the immutable statistics *)
+Theorem C20_memo_ops_confluent :
+  forall (V R : Type) (memo : N -> option V) (base : store V)
+         (f : N -> list (option V) -> V) (stop : list V -> option R) (fin : list V -> R) (err : R)
+         (ls : nat -> list (N * list N)) (s0 : store V),
+    (forall i, table_ok V memo base f (ls i)) -> consistent memo base s0 ->
+    forall sched i r,
+      result (exec sched (init (fun j => memo_seq f stop fin err (ls j) []) s0)) i = Some r ->
+      r = pure_seq f stop fin base (ls i) [].
+Proof. exact memo_ops_confluent. Qed.
+Print Assumptions C20_memo_ops_confluent.
+
+(* the repaired code (fix 6a5872c: a derived handle takes the parent's helper, _set_attrs(helper) only reads
+   the shared tree): for EVERY schema-tree write log, every column of the root and EVERY schedule of one
+   deriving thread and any number of readers, every lookup succeeds, nothing is written *)
+Theorem C20_rebuild_repaired :
+  forall (ws : wlog) (ks : list N) (name : N),
+    built ws 0%N = Some ks -> existsb (N.eqb name) ks = true ->
+    forall sched,
+      (forall i r, result (exec sched (init (repaired_pool name) (built ws))) i = Some r -> r = 0%N) /\
+      Forall (fun k => k <> KDestructiveWrite) (kinds list_eqb sched (init (repaired_pool name) (built ws))) /\
+      (forall k, c_store (exec sched (init (repaired_pool name) (built ws))) k = built ws k).
+Proof. exact rebuild_repaired. Qed.
+Print Assumptions C20_rebuild_repaired.
+
 (* non-vacuity: two threads that memoise the same converted statistic (key 7, value 42, computed
    from immutable key 1 when absent) and a third that only reads; interleaved schedule: all finish
    with their solo results, the store ends as base + the memo entry *)
@@ -123,5 +161,15 @@ Example C20_nonvacuous :
   kinds N.eqb [0; 1; 0; 1; 0; 1] (init nv_pool nv_base) = [KRead; KRead; KRead; KRead; KMemoWrite; KMemoWrite] /\
   trace_ok [[(1, 5)]; [(1, 5); (2, 6)]; [(2, 6); (1, 5); (3, 7)]]%N = true /\
   trace_ok [[(1, 5); (2, 6)]; [(1, 5)]; [(1, 5); (2, 6)]]%N = false /\
-  tree_writes [(0, 2); (1, 1); (2, 0); (3, 0)]%N = Some [(0, []); (0, [1%N]); (1, []); (1, [2%N]); (0, [1%N; 3%N])].
-Proof. vm_compute. repeat split; reflexivity. Qed.
+  tree_writes [(0, 2); (1, 1); (2, 0); (3, 0)]%N = Some [(0, []); (0, [1%N]); (1, []); (1, [2%N]); (0, [1%N; 3%N])] /\
+  (* two filter threads over statistics 10 (from raw 1) and 11 (from raw 2), a third over 11 only: interleaved *)
+  (let ff := fun (_ : N) (vals : list (option N)) => match vals with [Some x] => N.succ x | _ => 0%N end in
+   let st := fun (vs : list N) => match vs with v :: _ => if N.eqb v 42%N then Some 1000%N else None | [] => None end in
+   let fi := fun (vs : list N) => fold_left N.add vs 0%N in
+   let ls := fun i : nat => match i with 2%nat => [(11%N, [2%N])] | _ => [(10%N, [1%N]); (11%N, [2%N])] end in
+   let b := fun k : N => if N.eqb k 1%N then Some 5%N else if N.eqb k 2%N then Some 8%N else None in
+   let c := exec [0; 1; 2; 0; 0; 1; 2; 2; 1; 0; 0; 1; 1; 2; 2; 0; 0; 0; 1; 1; 1; 0; 1; 0; 1] (init (fun j => memo_seq ff st fi 999%N (ls j) []) b) in
+   result c 0 = Some 15%N /\ result c 1 = Some 15%N /\ result c 2 = Some 9%N /\
+   pure_seq ff st fi b (ls 0) [] = 15%N /\ c_store c 10%N = Some 6%N /\ c_store c 11%N = Some 9%N) /\
+  (exists ks, built [(0, []); (0, [1%N]); (0, [1%N; 3%N])] 0%N = Some ks /\ existsb (N.eqb 3%N) ks = true).
+Proof. vm_compute. repeat split; try reflexivity. eexists; split; reflexivity. Qed.
